@@ -488,6 +488,25 @@ def report_monitor_violations(ctx, d):
     return unlisted
 
 
+def require_outcomes(ctx, stream, cases, required, sep="/"):
+    """Non-vacuity of a correspondence stream: the tag of a case is the list of observed statuses (one position per modelled
+    lint); every position must show each of the required statuses somewhere in the stream, otherwise the comparison with
+    the model says nothing about that verdict of that lint."""
+    seen = [set() for _ in required]
+    for c in cases:
+        parts = c.get("tag", "").split(sep)
+        if len(parts) != len(required):
+            continue
+        for i, x in enumerate(parts):
+            seen[i].add(x)
+    missing = ["position %d lacks %s" % (i, sorted(set(r) - seen[i])) for i, r in enumerate(required) if set(r) - seen[i]]
+    ctx.oblige("stream %s exercises every verdict of every modelled lint (%s)" % (stream, "; ".join("/".join(sorted(r)) for r in required)), not missing, "; ".join(missing))
+    ctx.notes.setdefault("stream_outcomes", {})[stream] = [sorted(x) for x in seen]
+    if missing:
+        ctx.violation("stream-vacuous:" + stream, "the correspondence stream %s no longer reaches every verdict of the modelled lints (%s): the tie between model and code is not exercised there" % (stream, "; ".join(missing)),
+                      {"theorem_or_correspondence": "correspondence stream " + stream}, found_input=False)
+
+
 def report_disagreements(ctx, name, failing_cases, model, found_keys):
     """model/implementation disagreement with no direct property failure found by the monitors"""
     for c in failing_cases[:5]:
